@@ -310,6 +310,9 @@ def durable_execution(
             invocation_input.checkpoint_token,
             invocation_input.initial_execution_state.next_marker,
         )
+        # The whole history is known now: if it holds no completed operation there is nothing to
+        # replay (a first invocation whose state was paginated, a retry that is still pending ...)
+        execution_state.begin_replay_tracking()
 
         durable_context: DurableContext = DurableContext.from_lambda_context(
             state=execution_state, lambda_context=context
